@@ -40,6 +40,28 @@ func seqAlphabet() []In {
 	return a
 }
 
+// ttlAlphabet: one name, two addresses, and time. Registrations of the same name with different lifetimes, refreshes,
+// two sizes of clock jump and the sweep -- the histories in which a lease is computed from the wrong base (the old
+// deadline instead of now, the creator's lifetime instead of the joiner's, ...). Where the statement is silent about
+// which lifetime a group has after a further member joined, the model keeps every variant alive and narrows them
+// down with every later observation (A.5).
+func ttlAlphabet() []In {
+	return []In{
+		{Kind: OpRegister, Group: true, Addr: 0, TTL: 20e9},
+		{Kind: OpRegister, Group: true, Addr: 1, Form: 1, TTL: 60e9},
+		{Kind: OpRegister, Group: true, Addr: 1, TTL: 24 * 3600e9},
+		{Kind: OpRegister, Addr: 0, Form: 1, TTL: 20e9},
+		{Kind: OpRegister, Addr: 1, TTL: 60e9},
+		{Kind: OpRefresh, Addr: 0},
+		{Kind: OpRefresh, Addr: 1, Form: 1},
+		{Kind: OpRelease, Addr: 0, Form: 1},
+		{Kind: OpQuery},
+		{Kind: OpClean},
+		{Kind: OpJump, TTL: 11e9 + 1},
+		{Kind: OpJump, TTL: 31e9 + 1},
+	}
+}
+
 func runSeqEnum(seed uint64, index int64, o hx.Opts) *hx.Result {
 	res := &hx.Result{Property: "C17", Scenario: "seqenum", Index: index, Seed: seed, Extra: map[string]int64{}}
 	depth := int(o.Param["depth"])
@@ -54,6 +76,10 @@ func runSeqEnum(seed uint64, index int64, o hx.Opts) *hx.Result {
 	w := rt.NewWorld(cfg)
 	w.NoSkip = true
 	alpha := seqAlphabet()
+	if o.Param["ttl"] == 1 {
+		alpha = ttlAlphabet()
+		res.Scenario = "ttlenum"
+	}
 	total := int64(1)
 	for i := 0; i < depth; i++ {
 		total *= int64(len(alpha))
@@ -138,7 +164,7 @@ func runSeqEnum(seed uint64, index int64, o hx.Opts) *hx.Result {
 	}
 	hx.Finish(res, w, v, false)
 	// the signature of an enumeration shard is its shard number (no choices are drawn)
-	res.Hash = 0x5e9e000000000000 | uint64(index%shards)<<8 | uint64(depth)
+	res.Hash = 0x5e9e000000000000 | uint64(o.Param["ttl"])<<32 | uint64(index%shards)<<8 | uint64(depth)
 	return res
 }
 
